@@ -31,7 +31,8 @@ META = {
     "shard_timeout": {"quick": 900, "thorough": 3600},
 }
 TRIGGERS = ["fail_asyncio", "fail_trio", "fail_thread", "return_asyncio", "return_trio", "return_thread", "base_trio", "base_thread_custom",
-            "sigint", "kbint_asyncio", "kbint_thread", "shutdown_outside", "shutdown_thread", "stop", "systemexit_asyncio", "systemexit_thread"]
+            "sigint", "kbint_asyncio", "kbint_thread", "shutdown_outside", "shutdown_thread", "stop", "systemexit_asyncio", "systemexit_thread",
+            "shutdown_trio_worker", "shutdown_asyncio_worker"]
 
 
 def plan(tier, seed):
@@ -50,7 +51,49 @@ def coroutine_payload(rnd, pid, flavour):
     return {"id": pid, "flavour": flavour, "program": program, "cleanup": rnd.choice(kinds)}
 
 
+def gen_cross_case(rnd, spec):
+    """Trio payloads that keep calling into the asyncio runner (one of them is usually blocked inside execute when the end
+    comes), and an end that does not come from the trio side."""
+    trigger = rnd.choice(["fail_asyncio", "fail_thread", "return_asyncio", "return_thread", "stop", "sigint", "kbint_asyncio", "kbint_thread", "shutdown_outside", "shutdown_thread"])
+    gen = {"accept_delay": 0.03, "payloads": [], "services": [], "grace": 0.4, "tags": ["cross"]}
+    script = [["wait_running", 8]]
+    for i, flavour in enumerate(["asyncio", "trio", rnd.choice(common.COROUTINE)]):
+        p = coroutine_payload(rnd, "c%d" % i, flavour)
+        if p["cleanup"]["kind"] == "absorb":
+            p["cleanup"] = {"kind": "sync", "dur": 0.01}
+        p["when"] = "queued"
+        gen["payloads"].append(p)
+    for i in range(rnd.randint(1, 3)):
+        gen["payloads"].append({"id": "xs%d" % i, "flavour": "asyncio", "executed": True, "cleanup": {"kind": "none"},
+                                "program": [["sleep", rnd.choice([0.01, 0.02, 0.04])], ["return", "none"]]})
+        # adopted once the runtime runs (queued, it would deadlock the start-up: the recorded finding C10/startup-unqueue-deadlock)
+        gen["payloads"].append({"id": "cross%d" % i, "flavour": "trio", "cleanup": {"kind": "none"},
+                                "program": [["sleep", 0.02], ["exec_loop", "xs%d" % i, 400, rnd.choice([0.0, 0.005])]]})
+        script.append(["adopt", "cross%d" % i])
+    script.append(["sleep", rnd.choice([0.1, 0.2, 0.3])])
+    fl = {"asyncio": "asyncio", "trio": "trio", "thread": "threading"}
+    if trigger.startswith(("fail_", "return_", "kbint_")):
+        kind, where = trigger.split("_")
+        op = {"fail": ["raise", "LookupError"], "return": ["return", "str"], "kbint": ["raise", "KeyboardInterrupt"]}[kind]
+        gen["payloads"].append({"id": "trigger", "flavour": fl[where], "program": [["sleep", 0.01], op], "cleanup": {"kind": "none"}})
+        script.append(["adopt", "trigger"])
+    elif trigger == "sigint":
+        script.append(["sigint"])
+    elif trigger == "shutdown_outside":
+        script.append(["shutdown"])
+    elif trigger == "shutdown_thread":
+        gen["payloads"].append({"id": "trigger", "flavour": "threading", "program": [["shutdown"]], "cleanup": {"kind": "none"}})
+        script.append(["adopt", "trigger"])
+    else:
+        script.append(["stop"])
+    script.append(["expect_end", 8.0])
+    gen["script"] = script
+    return {"watchdog": 30, "inject": common.inject_conf(rnd, 0.5), "generations": [gen], "meta": {"trigger": trigger, "meta_runner": False, "cross": True}}
+
+
 def gen_case(rnd, spec):
+    if rnd.random() < 0.08 or spec.get("case_index", 0) % 40 == 7:
+        return gen_cross_case(rnd, spec)
     trigger = TRIGGERS[spec.get("case_index", 0) % len(TRIGGERS)] if rnd.random() < 0.6 else rnd.choice(TRIGGERS)
     gen = {"accept_delay": rnd.choice([0.02, 0.05, 0.1]), "payloads": [], "services": [], "grace": 0.4}
     meta_mode = rnd.random() < 0.2  # MetaRunner.run() / stop() driven directly (no service loop, no services)
@@ -160,6 +203,10 @@ def gen_case(rnd, spec):
         script.append(["adopt", "trigger"])
     elif trigger == "stop":
         script.append(["stop"])
+    elif trigger in ("shutdown_trio_worker", "shutdown_asyncio_worker"):
+        # the stop is requested from inside a coroutine payload, through a worker thread of its own framework, and awaited
+        gen["payloads"].append({"id": "trigger", "flavour": trigger.split("_")[1], "program": [["shutdown_in_worker"]], "cleanup": {"kind": "none"}})
+        script.append(["adopt", "trigger"])
     script.append(["expect_end", 8.0])
     gen["script"] = script
     inject = common.inject_conf(rnd, 0.7)
@@ -278,6 +325,8 @@ def judge(case, run, result, suspects_out=None):
     if workers:
         result.count("dispatcher_workers_judged", len(workers))
     result.count("running_coroutine_payloads_judged", checked)
+    if case["meta"].get("cross") and run.of("call", gen=0, op="execute"):
+        result.count("terminations_beside_trio_payloads_calling_into_asyncio")
     if run.of("block-start") and not run.of("accept-still-running"):
         result.count("terminations_with_blocked_threads")
     if suspects_out is not None:
@@ -372,7 +421,7 @@ def run_shard(spec):
 def finish(total, tier):
     need = ["running_coroutine_payloads_judged", "payloads_cancelled_and_cleaned_asyncio", "payloads_cancelled_and_cleaned_trio",
             "shielded_cleanups_finished_first", "terminations_with_blocked_threads", "payloads_adopted_during_termination_started", "scenarios_driving_metarunner_directly", "dispatcher_workers_judged", "private_waiters_cancelled_properly",
-            "async_cleanups_finished_first", "shielded_cleanups_that_adopt_half_way_finished_first", "stubborn_payloads_cancelled_until_done_asyncio", "stubborn_payloads_cancelled_until_done_trio", "process_exits_with_blocked_thread_payloads_checked"]
+            "async_cleanups_finished_first", "shielded_cleanups_that_adopt_half_way_finished_first", "stubborn_payloads_cancelled_until_done_asyncio", "stubborn_payloads_cancelled_until_done_trio", "process_exits_with_blocked_thread_payloads_checked", "terminations_beside_trio_payloads_calling_into_asyncio"]
     need += ["trigger_" + t for t in TRIGGERS if not t.startswith("systemexit")]
     for name in need:
         if not total.counters.get(name) and not total.violations:
